@@ -169,6 +169,93 @@ if q1_ok == 0:
     ck.inconclusive.append('Q1 vacuous: search_in_collection never returned hits')
 ck.functions += ['VectorEngine::search_in_collection', 'VectorEngine::extract_vector']
 
+# ------------------------------------------------------------------ Q2: every mutator drops the cached index of the collection it changed
+# "the index is never consulted after the data it was built from changed": search_similar / search_in_collection consult hnsw_cache
+# whenever it has an entry for the collection.  Each function of VectorEngine that writes or deletes an embedding record is executed
+# from MIR with the store a recording stub (put / delete succeed or fail) and a cache holding entries for the default collection and
+# for collection "c": when an embedding record was written or deleted, the entry of that collection must be gone at return.
+MUTATORS = {
+    'store_embedding': ('_default', lambda: [Str(text='k'), _vec2()]), 'delete_embedding': ('_default', lambda: [Str(text='k')]),
+    'store_embedding_with_metadata': ('_default', lambda: [Str(text='k'), _vec2(), Map('std::string::String', 'TensorValue', [], [])]),
+    'store_in_collection_with_metadata': ('c', lambda: [Str(text='c'), Str(text='k'), _vec2(), Map('std::string::String', 'TensorValue', [], [])]),
+    'delete_from_collection': ('c', lambda: [Str(text='c'), Str(text='k')]),
+    'batch_delete_embeddings': ('_default', lambda: [Seq('std::string::String', [Str(text='k')])]),
+    'clear': ('_default', lambda: []), 'delete_collection': ('c', lambda: [Str(text='c')]),
+}
+_vec2 = lambda: Seq('f32', [_fl('x0'), _fl('x1')])
+ck.declare('Q2_mutators_drop_the_cached_index', f'{sorted(MUTATORS)} with a cached index present for the default collection and for one named collection; store writes succeed or fail',
+           'a successful write or delete of an embedding record => no cache entry for that collection at return; other collections\' entries untouched')
+# a function that writes embedding records and is not in the list would escape the obligation: look for such functions in the source
+import re as _re
+_vsrc = open(os.path.join(REPO, 'vector_engine', 'src', 'lib.rs')).read()
+_vsrc = _vsrc[:_vsrc.index('#[cfg(test)]')] if '#[cfg(test)]' in _vsrc else _vsrc
+_unlisted = []
+for m_ in _re.finditer(r'\n    pub fn (\w+)\s*\(\s*&self[^{]*\{(.*?)\n    \}\n', _vsrc, _re.S):
+    name_, body_ = m_.group(1), m_.group(2)
+    if _re.search(r'self\.store\.(put|delete)\(', body_) and _re.search(r'embedding_key|embedding_prefix', body_) and name_ not in MUTATORS:
+        _unlisted.append(name_)
+if _unlisted:
+    ck.inconclusive.append(f'Q2: functions that write embedding records and are not covered: {_unlisted}')
+
+
+def _rec(kind):
+    def f(c):
+        k = deref(c.st, c.args[1])
+        good = c.st.choose(2, kind + ' ok/err') == 0
+        c.st.notes.append((kind, getattr(k, 'text', None), good))
+        return _ok(UNIT, 'Result<(), TensorStoreError>') if good else _err(Opaque('TensorStoreError'), 'Result<(), TensorStoreError>')
+    return f
+
+
+q2_saved = dict(exv.extra_models)
+exv.extra_models.update({
+    'VectorEngine::should_use_sparse': lambda c: z3.BoolVal(False),
+    'VectorEngine::embedding_key': lambda c: Str(text='emb:k'), 'VectorEngine::collection_embedding_key': lambda c: Str(text='coll:c:emb:k'),
+    'VectorEngine::embedding_prefix': lambda c: Str(text='emb:'), 'VectorEngine::collection_embedding_prefix': lambda c: Str(text='coll:c:emb:'),
+    'VectorEngine::metadata_field_key': lambda c: Str(text='meta:f'), 'TensorData::new': lambda c: Struct('TensorData', {}), 'TensorData::set': lambda c: UNIT,
+    'TensorStore::put': _rec('put'), 'TensorStore::delete': _rec('delete'), 'TensorStore::exists': lambda c: z3.Bool('record_exists'),
+    'TensorStore::scan': lambda c: Seq('std::string::String', [Str(text='emb:k')]),
+})
+q2_written = 0
+for fn_, (coll_, mk_) in MUTATORS.items():
+    st = exv.new_state()
+    cfg = Struct('VectorCollectionConfig', {PV.field('VectorCollectionConfig', 'dimension'): none('Option<usize>'),
+                                            PV.field('VectorCollectionConfig', 'distance_metric'): Enum('DistanceMetric', PV.variant_index('DistanceMetric', 'Cosine'), {}, variant='Cosine'),
+                                            PV.field('VectorCollectionConfig', 'auto_index'): z3.BoolVal(False), PV.field('VectorCollectionConfig', 'auto_index_threshold'): Int(z3.BitVecVal(0, 64), False)})
+    cache = Map('std::string::String', 'HnswCacheEntry', [Str(text='_default'), Str(text='c')], [Opaque('HnswCacheEntry'), Opaque('HnswCacheEntry')])
+    lock = lambda m_: Ptr(Cell(val=Struct('RwLock', {'data': Cell(val=m_)})), 0)
+    ecfg = Struct('VectorEngineConfig', {PV.field('VectorEngineConfig', 'max_dimension'): none('Option<usize>'), PV.field('VectorEngineConfig', 'max_keys_per_scan'): none('Option<usize>')}, lazy='VECFG')
+    eng = Struct('VectorEngine', {PV.field('VectorEngine', 'collections'): lock(Map('std::string::String', 'VectorCollectionConfig', [Str(text='c')], [cfg])),
+                                  PV.field('VectorEngine', 'hnsw_cache'): lock(cache), PV.field('VectorEngine', 'config'): ecfg,
+                                  PV.field('VectorEngine', 'delete_lock'): Struct('RwLock', {'data': Cell(val=UNIT)})}, lazy='VE')
+    st.roots['cache'] = cache
+    st.frames = []
+    exv.call(st, 'VectorEngine::' + fn_, [ref(eng)] + mk_())
+    res = exv.run(st)
+    ck.note_path_problem(res, f'VectorEngine::{fn_}')
+    other = 'c' if coll_ == '_default' else '_default'
+    for r in res:
+        wit = lambda m, fn_=fn_: {'op': 'stale_index', 'mutator': fn_}
+        if r.status == 'panic':
+            ck.require(exv, 'Q2_mutators_drop_the_cached_index', r.pc, None, z3.BoolVal(False), wit, lambda m, w: 'mutator-panic')
+            continue
+        if r.status != 'return':
+            continue
+        wrote = any(x[0] in ('put', 'delete') and x[2] for x in r.st.notes)
+        left = [k.text for k in r.st.roots['cache'].keys]
+        if wrote:
+            q2_written += 1
+        ck.require(exv, 'Q2_mutators_drop_the_cached_index', r.pc, None, z3.BoolVal((not wrote or coll_ not in left) and other in left), wit, lambda m, w: 'cached-index-survives:' + w['mutator'])
+exv.extra_models.clear()
+exv.extra_models.update(q2_saved)
+if q2_written == 0:
+    ck.inconclusive.append('Q2 vacuous: no mutator wrote an embedding record')
+ck.functions += ['VectorEngine::' + f_ for f_ in MUTATORS]
+
+for v in [v for v in ck.violations if v['witness'].get('op') == 'stale_index']:
+    rep = Replay.call({**v['witness'], 'op': 'vector_stale_index'})
+    v['native'] = rep
+    v['replayed'] = rep.get('violates')
 for v in [v for v in ck.violations if v['witness'].get('op') == 'collection_search']:
     rep = Replay.call({**v['witness'], 'op': 'vector_collection_search'})
     v['native'] = rep
